@@ -9,10 +9,11 @@ Keys == IF Tier = "q" THEN {<<"k1", "i1", "s1">>, <<"k3072", "multi", "big">>, <
         ELSE {<<"k1", "i1", "s1">>, <<"k3072", "multi", "big">>, <<"k4096", "long", "80">>, <<"k2", "i2", "00ff">>, <<"k2", "ca", "s2">>, <<"k1", "sig384", "s1">>, <<"k3072", "sigpss", "7f">>}
 Sizes == IF Tier = "q" THEN {300} ELSE {0, 1, 55, 64, 4096, 65536}
 Init == /\ done = FALSE
-        /\ \E t \in {"smime", "cms"}, nsc \in BOOLEAN, nd \in BOOLEAN, nc \in BOOLEAN, ca \in BOOLEAN, k \in Keys, z \in Sizes :
-             /\ (ca => t = "cms")
+        /\ \E t \in {"smime", "cms"}, nsc \in BOOLEAN, nd \in BOOLEAN, nc \in BOOLEAN, ca \in BOOLEAN, k \in Keys, z \in Sizes,
+              sh \in {"bytes", "der"} :       \* the signed content is arbitrary bytes, or happens to be one DER element itself (a certificate)
+             /\ (ca => t = "cms") /\ (sh = "der" => nd /\ z = CHOOSE x \in Sizes : TRUE)
              /\ cfg = [tool |-> t, flags |-> Opt(nsc, "-nosmimecap") \o Opt(nd, "-nodetach") \o Opt(nc, "-nocerts") \o Opt(ca, "-cades"),
-                       key |-> k[1], issuer |-> k[2], serial |-> k[3], size |-> z]
+                       key |-> k[1], issuer |-> k[2], serial |-> k[3], size |-> z, shape |-> sh]
 Next == ~done /\ done' = TRUE /\ UNCHANGED cfg
 Emit == done => PrintT(ToJson(cfg))
 =============================================================================
